@@ -30,6 +30,8 @@ def run(chk):
     # corpus: witnesses first
     blocks.append("hnew vsbx8|create 0 ok 0|invoke 0 whoami|destroy 0|create 0 ok 1|invoke 0 whoami|fnaddr 0 whoami".split("|"))
     blocks.append("hnew vsbx8|create 0 ok 0|invoke 0 whoami|fnaddr 0 whoami".split("|"))
+    # the same on a backend that does not declare needs_internal_lookup_symbol (function addresses go through rlbox's second cache)
+    blocks.append("hnew vsbx8n|create 0 ok 0|fnaddr 0 whoami|invoke 0 whoami|destroy 0|create 0 ok 1|fnaddr 0 whoami|invoke 0 whoami|fnaddr 0 other".split("|"))
     blocks.append("hnew vsbx8|create 0 ok 0|create 1 ok 1|create 2 ok 0|destroy 0|find 0|find 1|find 2|destroy 2|find 1|find 2|destroy 1|find 1".split("|"))
     blocks.append("hnew vsbx8|create 0 ok 0|reg 0 0 0|destroy 0|create 0 ok 0|stat|hprobe 0|reg 0 1 0".split("|"))
     # (1) all sequences to depth 3 (thorough 4) on two sandbox objects (+ a third in the random part), lock-step
@@ -57,7 +59,7 @@ def run(chk):
         blocks.append(b)
     # (2) random histories of length up to 300 over three objects
     ops3 = [o.format(s=s) for s in (0, 1, 2) for o in OPS] + ["cbunreg 0", "cbunreg 1", "cbdestroy 0", "cbmove 0 1", "stat"]
-    for be in ("vsbx8", "vsbx2", "noop"):
+    for be in ("vsbx8", "vsbx2", "noop", "vsbx8n"):
         for _ in range(40 if thorough else 12):
             b = [f"hnew {be}"]
             # bias towards legal lifecycles so that histories get long
